@@ -507,6 +507,36 @@ func run(c *vh.Ctx) error {
 		}
 	}
 
+	// 3c. the builder's pool under interleaved arrivals
+	nP := c.N(120, 1200)
+	poolReported := map[string]int{}
+	for i := 0; i < nP; i++ {
+		lines := genPoolCase(c.R, sc, res.Dist)
+		fs, err := sc.poolCase(drv, lines, res.Dist)
+		if err != nil {
+			return fmt.Errorf("pool case %d: %v\n%s", i, err, strings.Join(lines, "\n"))
+		}
+		res.TracesVsImpl++
+		res.Dist("case:pool-interleaving")
+		res.Count("POOL\n"+strings.Join(lines, "\n"), strings.Contains(lines[len(lines)-1], "/"))
+		seen := map[string]bool{}
+		for _, f := range fs {
+			key := f.kind + "/" + f.matcher
+			if seen[key] {
+				continue
+			}
+			seen[key] = true
+			poolReported[key]++
+			res.Dist("failure:pool:" + key)
+			if poolReported[key] > 2 {
+				continue
+			}
+			rp := vh.WriteReplay(c.ReplayDir, "C05", fmt.Sprintf("pool%d-%s-%d", i, strings.ReplaceAll(key, "/", "-"), c.Seed), c.Seed,
+				[]string{"evidence pool under interleaved arrivals", "failure " + f.kind + " " + f.matcher, strings.ReplaceAll(f.what, "\n", " | ")}, append([]string{"POOL"}, lines...))
+			res.Fail(f.kind, f.matcher, f.what, rp)
+		}
+	}
+
 	// 4. chain level: real blocks through builder (slashing) and importers (replaySlashing)
 	if err := chainLevel(c, drv); err != nil {
 		return err
@@ -525,6 +555,16 @@ func run(c *vh.Ctx) error {
 func replayBody(sc *scenario, drv *vh.Driver, body []string) (bool, string) {
 	if len(body) > 0 && strings.HasPrefix(body[0], "CHAIN") {
 		return replayChain(drv, body)
+	}
+	if len(body) > 0 && body[0] == "POOL" {
+		fs, err := sc.poolCase(drv, body[1:], func(string) {})
+		if err != nil {
+			return true, "replay error: " + err.Error()
+		}
+		if len(fs) == 0 {
+			return false, "no failure"
+		}
+		return true, fs[0].kind + "/" + fs[0].matcher + ": " + fs[0].what
 	}
 	if len(body) > 0 && body[0] == "E2E" {
 		fs, _, err := sc.e2eCase(drv, body[1:], func(string) {})
